@@ -567,6 +567,14 @@ def judge_laws(case: dict[str, Any]) -> tuple[list[tuple[str, str]], list[str]]:
         labels.append("unit_skipped_zero_vector")
     else:
         labels.append("unit_judged")
+        # prior history: the same component expressions normalised in a cylindrical and a spherical system first (the
+        # magnitude formula depends on the system; nothing remembered from there may leak into the Cartesian call)
+        try:
+            from symplyphysics import CoordinateSystem as _CS  # pylint: disable=import-outside-toplevel
+            for _t in (_CS.System.CYLINDRICAL, _CS.System.SPHERICAL):
+                vector_unit(w.Vector(list(A.components), _CS(_t)))
+        except Exception:  # pylint: disable=broad-except
+            pass
         un = guarded("unit", lambda: vector_unit(A))
 
         def m_unit(mv: Any) -> list[Any]:
